@@ -97,6 +97,13 @@ def check(ctx):
                      [START, "loop", s.kind, s.what])
         if not [s for s in srcs if s.kind != "spawn"]:
             ctx.ok(R2, "accept loop @bb%d: no panic source besides spawn (%d blocks)" % (nx.bb, len(scc)))
+        # the accept loop never waits for a connection: no join / channel receive / lock / condvar / sleep / read inside it — a stalled
+        # client must only ever occupy its own thread
+        BLOCKING = ("join", "recv", "recv_timeout", "lock", "wait", "wait_while", "wait_timeout", "sleep", "park", "read", "read_exact", "read_to_end", "read_line", "accept_hdr")
+        blk = [c for c in start.calls if c.bb in sccset and (c.name or "").rsplit("::", 1)[-1] in BLOCKING
+               and any(p_ in (c.name or "") for p_ in ("std::thread", "std::sync", "std::io", "crossbeam", "parking_lot", "openssl::ssl"))]
+        ctx.require(R4, not blk, blk[0].where() if blk else nx.where(), "the accept loop does not block on anything but the listener (%s)" % [c.name for c in blk],
+                    [START, "accept-loop-blocks"])
         # spawn inside loop
         sp = [c for c in start.calls_to("std::thread::functions::spawn", "std::thread::spawn") if c.bb in sccset]
         if not sp:
